@@ -175,6 +175,10 @@ type Machine struct {
 	digitCache []digitEntry
 	digitSeq   int
 	zoneChecked map[*Term]bool
+	syncMaps    map[*Val]*Map // state of sync.Map variables (stubs.go)
+	relLimit    int     // preemptions right after a mutex release allowed on this path (verifPreemptAtRelease)
+	relPreempts int     // preemptions right after a mutex release used on this path
+	relYield    *thread // the thread that is at a release point (set for the scheduler's next pick)
 	memo       map[string]bool
 	tlocks     map[*Val]*lockState
 	cur        *thread
